@@ -209,6 +209,10 @@ def parseStep (pkts : List HistPkt) (st : String) : Option (PubKeyStep String ×
   | ["sk", "n"] => some (.setPubKey none, "set")
   | ["sk", a] => do let p ← a.toNat? >>= (pkts[·]?); some (.setPubKey (some p.key), "set")
   | ["ss", a] => do let p ← a.toNat? >>= (pkts[·]?); some (.setSignature p.sig, "set")
+  | ["kw", a] => do let _ ← a.toNat? >>= (pkts[·]?); some (.other, "kw=ok")
+  | ["pw"] => some (.other, "pw")
+  | ["pp"] => some (.other, "pp=ok")
+  | ["vs", a] => do let _ ← a.toNat? >>= (pkts[·]?); some (.other, "vs:" ++ a)
   | _ => none
 
 def pubkeyHist (args : List String) (obs : String) : Verdict :=
@@ -232,7 +236,15 @@ def pubkeyHist (args : List String) (obs : String) : Verdict :=
         | .readFrom p =>
           let (v', ok) := pubKeyReadFrom v p
           (v', acc ++ [if ok then "rf=ok" else "rf=err"])
-        | st => (pubKeyApply v st, acc ++ [tag])
+        | st =>
+          let out :=
+            if tag == "pw" then (if v.pubKey.isSome then "pw=ok" else "pw=panic")
+            else if tag.startsWith "vs:" then
+              match (tag.drop 3).toString.toNat? >>= (pkts[·]?) with
+              | some p => s!"vs={showBool (verifySignature (Key := Unit) (fun t => t) rsa () p.key p.sig)}#{(tag.drop 3).toString}"
+              | none => "vs=?"
+            else tag
+          (pubKeyApply v st, acc ++ [out])
       let model := ",".intercalate outs
       -- oracle, from the observation alone: a `true` needs current fields that are unexpired and a (key, signature)
       -- pair for which RSA verification under the services key succeeds
@@ -247,8 +259,12 @@ def pubkeyHist (args : List String) (obs : String) : Verdict :=
               | none => true
             | _, _, _ => true
           | _ => true
+        else if item.startsWith "vs=true#" then
+          match ((item.drop 8).toString).toNat? with
+          | some i => !(pairs.contains (i, i))
+          | none => true
         else false
-      { model, spec := bad.map fun item => s!"Verify accepted fields that do not verify now: {item}" }
+      { model, spec := bad.map fun item => s!"accepted what does not verify under the services key fixed at the start: {item}" }
     | _, _ => { model := "bad-arg" }
   | _, _, _ => { model := "bad-arg" }
 
@@ -290,6 +306,42 @@ def authHs (args : List String) (obs : String) : Verdict :=
     { model, spec }
   | _, _, _, _, _ => { model := "bad-arg" }
 
+/-! ### bot.hs — the client side of the handshake
+
+  `bot.hs kseed= kbits= sid=<hex> key=<hex, as sent> kc=<rsa|bad> http=<ok|deny>`
+  `=> ok hash=<text> secret=<hex> sha1=<hex> srv=<text> | err | panic`
+  `secret` (what `rand.Read` gave the client, recovered by decrypting its response), `sha1` (Go's SHA-1 of
+  sid ‖ secret ‖ key as sent) and `srv` (the server-side `authDigest` of the same triple) are on the right-hand side
+  because the secret is fresh in every run. -/
+
+def botHs (args : List String) (obs : String) : Verdict :=
+  match hexArg args "sid", hexArg args "key", kv args "kc", kv args "http" with
+  | some sid, some key, some kc, some http =>
+    let toks := obs.splitOn " "
+    match (kv toks "secret").bind parseHex, (kv toks "sha1").bind parseHex with
+    | some secret, some d =>
+      let sha1 : Bytes → Bytes := fun x => if x == sid ++ secret ++ key then d else []
+      let (asked, r) := clientHandshake sha1 sid key secret (http == "ok") (kc == "rsa")
+      let model := match r, asked with
+        | .ok _, some h => s!"ok hash={h} secret={hexOfBytes secret} sha1={hexOfBytes d} srv={showStr (authDigestServer sha1 sid secret key)}"
+        | .panic, _ => "panic"
+        | _, _ => "err"
+      let spec : Option String :=
+        match kv toks "hash" with
+        | none => none
+        | some h =>
+          if allZero d then none else
+          let want := javaHex (toSigned d)
+          if h != want then some s!"the hash the client sent is not Java's rendering of SHA-1(server id ‖ secret ‖ key as sent): {want}"
+          else if kv toks "srv" != some h then some "client-side and server-side session hashes differ"
+          else none
+      { model, spec }
+    | _, _ =>
+      -- no response packet: nothing to recover the secret from
+      let model := if http == "ok" && kc == "rsa" then "ok" else "err"
+      { model }
+  | _, _, _, _ => { model := "bad-arg" }
+
 def handle (op : String) (args : List String) (obs : String) : Option Verdict :=
   match op with
   | "uuid" => some (uuid args obs)
@@ -302,6 +354,7 @@ def handle (op : String) (args : List String) (obs : String) : Option Verdict :=
   | "lb.writes" => some (lbWrites args obs)
   | "pubkey.hist" => some (pubkeyHist args obs)
   | "auth.hs" => some (authHs args obs)
+  | "bot.hs" => some (botHs args obs)
   | _ => none
 
 end Driver.C18
